@@ -150,7 +150,7 @@ CHECKS["C20"]["text"] += " 8-bit strings: all two-byte and the 3/4-byte sequence
 
 # ---- round 3 (texts only) -----------------------------------------------------
 ENGINES += [
-    {"name": "udpfront", "path": "harness/env/udp.go", "serves_properties": ["C09", "C10", "C11"],
+    {"name": "udpfront", "path": "harness/env/udp.go", "serves_properties": ["C03", "C09", "C10", "C11"],
      "kind_free_text": "the same environment (reference BMC, answer menus, chooser) served on a loopback UDP socket in front of the hook-free DialV2, explored with the same deviation-bounded DFS; every execution is judged by the property's oracles and compared with the in-memory execution of the same choice vector (datagrams received by the BMC and callers' results must be identical) - binds the in-memory socket model to internal/pkg/transport"},
 ]
 CHECKS["C01"]["text"] += " Password, KG and user name also range over eight byte-content kinds (zero bytes at the start/middle/end, all zero, all ones, top bits, white space); every ordered pair of suites (and a diagonal of triples) is opened as several sessions on one connection, closed before re-opening or held open together."
